@@ -39,11 +39,14 @@ TRUSTED = [
     'Python re semantics of the seven TAPParser patterns as transcribed into hand-written matchers '
     '(validated on every run against the live compiled pattern objects, not proved)',
     'domain: ASCII text plus non-ASCII code points that CPython classes as neither space, word character, '
-    'digit nor cased letter; digit runs of at most 4300 characters (longer ones are the recorded finding)',
+    'digit nor cased letter; sys.get_int_max_str_digits() at its default 4300 (the model mirrors the guarded int() calls '
+    'with that constant; checked at start-up)',
+    'test numbers whose successors stay below 10**4300 (beyond that str() of the number raises: recorded finding)',
     'TAP 12/13 rules as restated by the reference consumer in harness/c18.py (written from the property statement)',
 ]
 
-INT_LIMIT_KEY = 'parse_line-raises-ValueError-on-4301-digit-number'
+
+RESIDUAL_KEY = 'raise-on-printing-test-number-10^4300'
 
 # non-ASCII characters used by generators; verified at start-up to be inert for every predicate in play
 OTHER_CHARS = ['€', '→', '✓', '…', '§', '»']
@@ -76,6 +79,9 @@ ERR_PATTERNS: T.List[T.Tuple[T.Pattern[str], T.Callable[[T.Match[str]], str]]] =
      lambda m: f'dup:{m.group(1)}:{m.group(2)}'),
     (re.compile(r'Missing test numbers \(expected (\d+), got test numbered (\d+)\Z'),
      lambda m: f'miss:{m.group(1)}:{m.group(2)}'),
+    (re.compile(r'test number too large\Z'), lambda m: 'numlarge'),
+    (re.compile(r'plan count too large\Z'), lambda m: 'planlarge'),
+    (re.compile(r'version number too large\Z'), lambda m: 'verlarge'),
 ]
 
 
@@ -265,7 +271,12 @@ def reference(items: T.Sequence[Item]) -> dict:
                 errors.append('late')
                 late_reported = True
             ntests += 1
-            last = last + 1 if num is None else num
+            if isinstance(num, str):
+                # a number int() refuses: reported, the subtest is numbered as if no number was written
+                errors.append('numlarge')
+                last = last + 1
+            else:
+                last = last + 1 if num is None else num
             highest = max(highest, last)
             if plan is not None and last > plan[0]:
                 errors.append('exceeds')
@@ -283,6 +294,8 @@ def reference(items: T.Sequence[Item]) -> dict:
             n, directive, expl = it.a
             if plan is not None:
                 errors.append('plan2')
+            elif isinstance(n, str):
+                errors.append('planlarge')  # reported, otherwise ignored
             else:
                 skipped = n == 0
                 if directive is not None:
@@ -300,6 +313,8 @@ def reference(items: T.Sequence[Item]) -> dict:
         elif k == 'version':
             if lineno != 1:
                 errors.append('verpos')
+            elif isinstance(it.a, str):
+                errors.append('verlarge')  # reported, otherwise ignored
             else:
                 version = it.a
                 if version < 13:
@@ -404,18 +419,13 @@ BAD_NAMES = ('FAIL', 'TIMEOUT', 'INTERRUPT', 'UNEXPECTEDPASS', 'ERROR')
 
 
 def key_of(prefix: str, lines: T.Sequence[str]) -> str:
-    return prefix + ':' + json.dumps(list(lines), ensure_ascii=True).replace(' ', '\\u0020')
+    k = prefix + ':' + json.dumps(list(lines), ensure_ascii=True).replace(' ', '\\u0020')
+    return re.sub(r'[0-9]{41,}', lambda m: f'<{len(m.group(0))}digits:{m.group(0)[:3]}>', k)
 
 
 def report_raise(ctx: Ctx, lines: T.Sequence[str], ex: BaseException) -> None:
-    if isinstance(ex, ValueError) and 'Exceeds the limit' in str(ex) and \
-            any(re.search(r'[0-9]{4301}', l) for l in lines):
-        ctx.violation(INT_LIMIT_KEY, 'parse_line raises ValueError (CPython int-string limit)',
-                      {'lines': [l if len(l) < 60 else l[:20] + f'...({len(l)} chars)' for l in lines],
-                       'shape': 'prefix + 4301 digits'})
-    else:
-        ctx.violation(key_of('raise', lines), f'parser raised {type(ex).__name__}: {str(ex)[:120]}',
-                      {'lines': list(lines)})
+    ctx.violation(key_of('raise', lines), f'parser raised {type(ex).__name__}: {str(ex)[:120]}',
+                  {'lines': list(lines)})
 
 
 # ------------------------------------------------------------------ generators
@@ -426,6 +436,11 @@ SKIPS = ['SKIP', 'skip', 'Skip', 'SKIPPED', 'skipped', 'SkIpPiNg', 'SKIP-x', 'sk
 TODOS = ['TODO', 'todo', 'ToDo', 'tOdO']
 EXPLS = [None, 'why', 'not yet', 'see #12', 'needs  space', '- later', ': colon', '→ arrow', 'SKIP', 'TODO ok']
 SPACES = [' ', '  ', '\t', ' \t ']
+
+
+def long_digits(rng) -> str:
+    """a digit string int() refuses (more than 4300 characters, leading zeros count)"""
+    return rng.choice(['1' * 4301, '0' * 4301, '0' * 4300 + '7', '9' * 4400, '12' * 2151])
 # comments after a test that are not TAP directives (no word boundary after TODO, no SKIP prefix, ...)
 NOT_DIRECTIVES = ['TODOS', 'todo_x', 'TODO2 later', 'ToDone', 'FIXME', 'note', 'SKI', 'S KIP', 'T ODO', 'skp why', '', 'see TODO',
                   'x SKIP', '#SKIP', ': TODO']
@@ -434,6 +449,8 @@ NOT_DIRECTIVES = ['TODOS', 'todo_x', 'TODO2 later', 'ToDone', 'FIXME', 'note', '
 def rand_test_item(rng, simple: bool = False) -> Item:
     ok = rng.random() < 0.6
     num = None if rng.random() < 0.4 else rng.choice([1, 2, 3, 4, 5, 7, 10, 12, 100, rng.randint(0, 30)])
+    if rng.random() < 0.004:
+        num = long_digits(rng)
     name = rng.choice(NAMES)
     if num is None and name[:1].isdigit():
         name = 'n' + name
@@ -459,7 +476,9 @@ def rand_items(rng, maxlen: int) -> T.List[Item]:
     items: T.List[Item] = []
     r = rng.random()
     v13 = r < 0.55
-    if v13:
+    if r > 0.995:
+        items.append(Item('version', 'TAP version ' + long_digits(rng), 'long'))
+    elif v13:
         items.append(Item('version', 'TAP version ' + str(rng.choice([13, 13, 13, 14, 130])) + rng.choice(['', '\n']), None))
         items[-1] = items[-1]._replace(a=int(items[-1].text.split()[2]))
     elif r < 0.65:
@@ -471,6 +490,8 @@ def rand_items(rng, maxlen: int) -> T.List[Item]:
 
     def plan_item() -> Item:
         r2 = rng.random()
+        if r2 < 0.01:
+            return mk_plan(long_digits(rng), rng.choice([None, 'SKIP']), None)  # type: ignore[arg-type]
         if r2 < 0.7:
             return mk_plan(planned, None, None, rng.choice(['', '\n']))
         if r2 < 0.9:
@@ -727,15 +748,29 @@ def run(ctx: Ctx) -> None:
     b = Batch(ctx)
     verdict_cases: T.List[T.Tuple[T.List[str], bool, bool, int]] = []
 
-    # 0. known-finding witnesses (CPython int-string limit), implementation only
-    for pre in ('ok ', '1..', 'TAP version '):
-        lines = [pre + '1' * 4301]
-        _evs, _p, ex = impl_parse(M, lines)
-        ctx.count()
-        if ex is not None:
-            report_raise(ctx, lines, ex)
-    # the boundary just inside the limit must work and agree
-    add_stream(M, ctx, b, ['ok ' + '9' * 4300])
+    # 0. numbers at and beyond CPython's int() digit limit (the former finding F-TAP-INT, repaired in /repo)
+    import sys as _sys
+    if hasattr(_sys, 'get_int_max_str_digits') and _sys.get_int_max_str_digits() != 4300:
+        raise common.ToolFailure('sys.get_int_max_str_digits() is not 4300; the model mirrors the default')
+    big = '1' * 4301
+    for items in ([mk_test(True, big, '', None, None)], [mk_plan(big, None, None)],  # type: ignore[arg-type]
+                  [Item('version', 'TAP version ' + big, 'long')],
+                  [mk_plan(1, None, None), mk_test(False, '0' * 4301, 'x', 'TODO', 'y')],  # type: ignore[arg-type]
+                  [mk_test(True, 3, '', None, None), mk_test(True, big, '', None, None), mk_plan(big, 'SKIP', None),  # type: ignore[arg-type]
+                   mk_plan(5, None, None)],
+                  [mk_test(True, int('9' * 4300), '', None, None)], [mk_plan(int('1' + '0' * 4299), None, None)]):
+        add_stream(M, ctx, b, [it.text for it in items])
+        check_items(M, ctx, items)
+        verdict_cases.append(([it.text for it in items], False, False, 0))
+        ctx.tag('gen:int-limit')
+    # residual finding (implementation only): incrementing 10**4300 - 1 gives a number str() refuses
+    lines = ['ok ' + '9' * 4300, 'ok']
+    _evs, _p, ex = impl_parse(M, lines)
+    ctx.count()
+    if ex is not None and isinstance(ex, ValueError) and 'Exceeds the limit' in str(ex):
+        ctx.violation(RESIDUAL_KEY, 'parser raised ValueError while printing a 4301-digit test number', {'lines': lines})
+    elif ex is not None:
+        report_raise(ctx, lines, ex)
 
     # 1. corpus
     for lines in corpus_streams():
